@@ -341,6 +341,10 @@ func runC19Transfer(p c19Transfer, c *stats.Case) error {
 		return nil
 	}
 	if oerr != nil {
+		if pp.IsTimeout(oerr) {
+			stats.For("C19").Count("inconclusive:offer-timeout", 1)
+			return nil
+		}
 		return fmt.Errorf("sets %v/%v share version %d but the offer failed: %v", p.A, p.B, common, oerr)
 	}
 	select {
@@ -381,6 +385,10 @@ func runC19Transfer(p c19Transfer, c *stats.Case) error {
 	select {
 	case r := <-ch:
 		if r.err != nil {
+			if pp.IsTimeout(r.err) {
+				stats.For("C19").Count("inconclusive:findcontent-timeout", 1)
+				return nil
+			}
 			return fmt.Errorf("sets %v/%v share version %d but FINDCONTENT of %d bytes failed: %v", p.A, p.B, common, p.ContentLen, r.err)
 		}
 		gotb, isBytes := r.v.([]byte)
